@@ -156,20 +156,25 @@ def discover (s : State) (mac : Nat) : State × Reply :=
   | some l => if s.now < l.exp then (s, .offer l.ip) else fresh
   | none => fresh
 
+/-- the renewal carries another circuit-id than the lease: the old one's cache entries go (676b977; the index entry
+    is "stale" in the sense of the code whenever circuit-ids are private to a MAC) -/
+def dropStale (s : State) (mac : Nat) (old new : Option Nat) : State :=
+  match old with
+  | some oc => if some oc ≠ new then { s with kCid := rm s.kCid (mac, oc), kHash := rm s.kHash (mac, oc) } else s
+  | none => s
+
+/-- the circuit-id the renewed lease carries: the request's, else the stored one -/
+def keepCid (cid old : Option Nat) : Option Nat :=
+  match cid with
+  | some c => some c
+  | none => old
+
 /-- handleRequest, renewal branch (a lease of this MAC exists, expired or not) -/
 def renew (s : State) (mac : Nat) (l : Lease) (r : Nat) (cid : Option Nat) : State × Reply :=
   if l.ip ≠ r then (s, .nak)
   else
-    let cid' := match cid with
-      | some c => some c
-      | none => l.cid
-    let nl : Lease := { ip := r, exp := s.now + s.cfg.leaseTime, cid := cid', sess := l.sess }
-    let s1 := { s with leases := AMap.insert s.leases mac nl }
-    -- the circuit-id changed: the old one's cache entries go (676b977)
-    let s2 := match l.cid with
-      | some oc => if some oc ≠ cid' then { s1 with kCid := rm s1.kCid (mac, oc), kHash := rm s1.kHash (mac, oc) } else s1
-      | none => s1
-    (cache s2 mac cid', .ack r)
+    let nl : Lease := { ip := r, exp := s.now + s.cfg.leaseTime, cid := keepCid cid l.cid, sess := l.sess }
+    (cache (dropStale { s with leases := AMap.insert s.leases mac nl } mac l.cid nl.cid) mac nl.cid, .ack r)
 
 /-- handleRequest, new-session branch -/
 def establish (s : State) (mac r : Nat) (cid : Option Nat) : State × Reply :=
